@@ -51,7 +51,8 @@ def _case(draw, tier):
     }
     return {"desc": desc, "invoke": draw(gen.invoke()), "backend": draw(st.sampled_from(["slurm", "slurm", "slurm", "sge", "lsf", "lsf"])), "vector": vec,
             "hashing": hashing, "hstate": hstate, "run_patterns": draw(st.one_of(st.just([]), gen.patterns(names))),
-            "filter": flt, "accounting": draw(st.sampled_from([True, True, True, False]))}
+            "filter": flt, "accounting": draw(st.sampled_from([True, True, True, False])),
+            "off_now": draw(st.sampled_from([None, None, "no", "false"]))}
 
 
 def strategy(tier):
@@ -113,6 +114,14 @@ def run_case(case):
             for ext in (".stdout", ".stderr"):
                 with open(proj.path(f".gwf/logs/{n}{ext}"), "w") as f:
                     f.write("old log\n")
+        if hashing and case.get("off_now"):
+            # the history was made with spec hashing on; it has been switched off since: the records stay where they
+            # are (the previews must not touch them) and do not count for the decision
+            rc_ = proj.gwf(["config", "set", "use_spec_hashes", case["off_now"]])
+            if rc_.code != 0 or rc_.crashed:
+                return CaseResult([Violation({"kind": "config-set-failed"}, rc_.brief())], False, sorted(labels))
+            hashing = False
+            labels.add("hashing-switched-off-after-records")
         want, _ = R.plan(names, eff, hashing, records)
 
         snap0 = proj.snapshot()
